@@ -82,6 +82,10 @@ class Subscription(collections.namedtuple('Subscription', 'node, port')):
     _PORTS: dict['flow.Node', set[Type]] = collections.defaultdict(set)  # TO-DO: switch to weakref
 
     def __new__(cls, subscriber: 'flow.Node', port: Type):
+        if isinstance(subscriber, atomic.Future):
+            # (checked first: a Future must never get an entry in the registry - it compares equal to the worker it
+            # stands for, so its entry would capture that worker's ports)
+            raise _exception.TopologyError('Future node subscribing')
         if port in cls._PORTS[subscriber]:
             raise _exception.TopologyError('Double subscription')
         if cls._PORTS[subscriber] and (
@@ -90,8 +94,6 @@ class Subscription(collections.namedtuple('Subscription', 'node, port')):
             raise _exception.TopologyError('Apply/Train collision')
         if isinstance(port, (Train, Label)) and any(subscriber.output):
             raise _exception.TopologyError('Publishing node trained')
-        if isinstance(subscriber, atomic.Future):
-            raise _exception.TopologyError('Future node subscribing')
         cls._PORTS[subscriber].add(port)
         return super().__new__(cls, subscriber, port)
 
